@@ -184,10 +184,10 @@ Qed.
 (* ---------- reveal ---------- *)
 Lemma reveal_plates_inv v s ids s' :
   reveal_plates v s ids = Ok s' ->
-  forallb obs_is_zero (revealed_values s ids) = false /\ existsb obs_is_nan (revealed_values s ids) = false /\
+  reveal_zero_guard s ids = false /\ existsb obs_is_nan (revealed_values s ids) = false /\
   rebuild (carry_reveal v) s (reveal_rows s ids) = Ok s'.
 Proof.
-  unfold reveal_plates. destruct (forallb obs_is_zero _); [discriminate|].
+  unfold reveal_plates. destruct (reveal_zero_guard s ids); [discriminate|].
   destruct (existsb obs_is_nan _); [discriminate|]. auto.
 Qed.
 
@@ -225,9 +225,13 @@ Proof.
 Qed.
 
 (* refusals *)
+Theorem reveal_refuses_guard v s ids :
+  reveal_zero_guard s ids = true -> reveal_plates v s ids = Err 8.
+Proof. unfold reveal_plates. now intros ->. Qed.
+
 Theorem reveal_refuses_zero v s ids :
   forallb obs_is_zero (revealed_values s ids) = true -> reveal_plates v s ids = Err 8.
-Proof. unfold reveal_plates. now intros ->. Qed.
+Proof. intros H. apply reveal_refuses_guard. unfold reveal_zero_guard. now rewrite H. Qed.
 
 Lemma select_all_false {A} (sel : list bool) (l : list A) :
   (forall b, In b sel -> b = false) -> select sel l = [].
@@ -256,13 +260,18 @@ Proof.
   reflexivity.
 Qed.
 
+(* a selection containing a NaN is refused: with the NaN error unless the zero guard (which the code tests first:
+   some OTHER selected plate holds only zeros) already refused it - never because the selected values are jointly zero *)
 Theorem reveal_refuses_nan v s ids :
-  existsb obs_is_nan (revealed_values s ids) = true -> reveal_plates v s ids = Err 9.
+  existsb obs_is_nan (revealed_values s ids) = true ->
+  forallb obs_is_zero (revealed_values s ids) = false /\
+  reveal_plates v s ids = Err (if reveal_zero_guard s ids then 8 else 9).
 Proof.
-  intros H. unfold reveal_plates. rewrite H.
-  destruct (forallb obs_is_zero (revealed_values s ids)) eqn:E; [|reflexivity].
-  exfalso. apply existsb_exists in H. destruct H as (b & Hb & Hn).
-  rewrite forallb_forall in E. specialize (E b Hb). now rewrite (obs_nan_not_zero b Hn) in E.
+  intros H. split.
+  - destruct (forallb obs_is_zero (revealed_values s ids)) eqn:E; [|reflexivity].
+    exfalso. apply existsb_exists in H. destruct H as (b & Hb & Hn).
+    rewrite forallb_forall in E. specialize (E b Hb). now rewrite (obs_nan_not_zero b Hn) in E.
+  - unfold reveal_plates. rewrite H. now destruct (reveal_zero_guard s ids).
 Qed.
 
 (* ---------- mask / unmask / save+load ---------- *)
